@@ -1,6 +1,6 @@
 #!/bin/bash
 # Real-code demonstrations of the genuine defects found by the contract checks (DESIGN.md §8).
-# usage: demo.sh <xcp-binary> <F1|F2|F3|F4|F5|F6|F7>      exit 0 = behaviour correct, exit 1 = defect shown
+# usage: demo.sh <xcp-binary> <F1|F2|F3|F4|F5|F6|F7|F8>      exit 0 = behaviour correct, exit 1 = defect shown
 X=$1; WHICH=$2
 D=$(mktemp -d /tmp/xcpdemo.XXXXXX); trap 'rm -rf "$D"' EXIT; cd "$D" || exit 2
 case "$WHICH" in
@@ -44,5 +44,9 @@ F7) # numbered backups of a non-UTF-8 name restart at 1 and replace the existing
     for v in v1 v2 v3 v4; do printf $v > "s/$N"; "$X" -r --backup=numbered s d >/dev/null 2>&1; done
     if [ "$(cat "d/s/$N.~1~" 2>/dev/null)" != "v1" ] || [ ! -f "d/s/$N.~3~" ]; then echo "DEFECT F7: after 4 copies backups are: $(ls d/s | cat -v | tr '\n' ' ') and .~1~ holds $(cat "d/s/$N.~1~")"; exit 1; fi
     echo "F7 ok"; exit 0;;
+F8) # special file copied onto itself through another spelling: the worker removed the source
+    mkfifo p; "$X" p ./p >/dev/null 2>&1
+    if [ ! -p p ]; then echo "DEFECT F8: 'xcp p ./p' removed the FIFO p"; exit 1; fi
+    echo "F8 ok"; exit 0;;
 *) echo "unknown finding $WHICH"; exit 2;;
 esac
